@@ -39,8 +39,9 @@ def extern(name):
 
 
 class Interp(StmtMixin, ExprMixin, CallMixin, BuiltinMixin, EngineBase):
-    merge_enabled = True
+    merge_enabled = not bool(__import__('os').environ.get('PYVC_NOMERGE'))
     want_seq_comprehension = False
+    comp_only_images = False  # the converse characterisation of interned comprehensions (prone to matching loops)
 
     def __init__(self, repo=None, registry=None, ghost_decl=None):
         super().__init__(repo, registry)
@@ -197,6 +198,7 @@ class Interp(StmtMixin, ExprMixin, CallMixin, BuiltinMixin, EngineBase):
         for k, v in h0._heap.items():
             self.st.heap.setdefault(k, v)
         entry_alloc = self.st.alloc
+        self.top_entry = {"params": params, "alloc": entry_alloc}
         if not self.feasible():
             self.oblige("vacuity", False, fdef.node, "precondition is unsatisfiable")
             raise PathEnd()
@@ -262,6 +264,17 @@ class Interp(StmtMixin, ExprMixin, CallMixin, BuiltinMixin, EngineBase):
         self._check_frame(fdef, con, params, h0, entry_alloc)
 
     def _check_frame(self, fdef, con, params, h0, entry_alloc):
+        g = self._frame(con, params, h0, entry_alloc)
+        if g is not None:
+            self.oblige("frame", g, fdef.node, "nothing outside `modifies` changed")
+
+    def frame_formula(self):
+        """frame condition of the function under verification, in the current state (True if nothing to say)"""
+        top = self.top_entry
+        g = self._frame(self.cur_contract, top["params"], self._entry_view(top["alloc"]), top["alloc"])
+        return SV(g, TBool) if g is not None else lift(True)
+
+    def _frame(self, con, params, h0, entry_alloc):
         c0 = Ctx(self, params, h0, h0)
         items = con.modifies(c0) if con.modifies else []
         whole = {it[0] for it in items if len(it) == 1 or it[1] is None}
@@ -270,7 +283,7 @@ class Interp(StmtMixin, ExprMixin, CallMixin, BuiltinMixin, EngineBase):
             if len(it) > 1 and it[1] is not None:
                 single.setdefault(it[0], []).append(it[1])
         if "*" in whole:
-            return
+            return None
         r = z3.Const("r!frame", z3.IntSort())
         goals = []
         for k, cur in self.st.heap.items():
@@ -288,8 +301,7 @@ class Interp(StmtMixin, ExprMixin, CallMixin, BuiltinMixin, EngineBase):
                 continue
             excl = [r != x.t for x in single.get(k, [])]
             goals.append(z3.ForAll([r], z3.Implies(z3.And(z3.IsMember(r, entry_alloc), *excl), z3.Select(cur, r) == z3.Select(old, r))))
-        if goals:
-            self.oblige("frame", z3.And(*goals), fdef.node, "nothing outside `modifies` changed")
+        return z3.And(*goals) if goals else None
 
 
 # ----------------------------------------------------------------------
@@ -319,7 +331,9 @@ def rec_from_source(repo: Repo, qualname, overrides=None, name=None, skip=()):
     if not isinstance(cdef, ClassDef):
         raise Unsupported(f"class {qualname} not found")
     fields, eq, defaults = {}, [], {}
+    ctor = []
     for fname, ann, default in cdef.ann_fields:
+        ctor.append(fname)
         if fname in skip:
             continue
         ann_s = ast.unparse(ann)
@@ -341,4 +355,6 @@ def rec_from_source(repo: Repo, qualname, overrides=None, name=None, skip=()):
         if is_eq:
             eq.append(fname)
     t = TRec(name or cdef.name, fields, eq, defaults, qualname=qualname)
+    t.ctor_params = ctor
+    t.skipped = set(skip)
     return t
